@@ -3,7 +3,7 @@
    Print Assumptions.  GENERATED skeleton (tools/mkprops.py), statements are the ones Coq prints for the lemmas. *)
 From Coq Require Import ZArith List Bool String Reals.
 From VQ Require Import Num Model.Vec Model.Core Proofs.CoreEMA Proofs.CoreMask Glue.CoreGlue Glue.Pin_p_mask.
-From VQ Require Import Model.Einops Glue.EinopsGlue.
+From VQ Require Import Model.Einops Glue.EinopsGlueBase Glue.EinopsGlueMask.
 Import ListNotations.
 Open Scope R_scope.
 
@@ -146,11 +146,11 @@ Theorem C09_src_mask_replication :
           (c < e "c")%nat ->
           (bh < e "b" * e "h")%nat ->
           (n < e "n")%nat -> @rearr A p e (@of2 A M) [c; bh; n] = M (bh / e "h")%nat n).
-Proof. exact (@EinopsGlue.einops_mask_repeat). Qed.
+Proof. exact (@EinopsGlueMask.einops_mask_repeat). Qed.
 Print Assumptions C09_src_mask_replication.
 
 Theorem C09_src_mask_replication_both_sites :
   find_role pr_vq.pr_vq "VectorQuantize.forward:loss_mask" "repeat" 0 =
        find_role pr_vq.pr_vq "VectorQuantize.forward:loss_mask" "repeat" 1.
-Proof. exact (@EinopsGlue.einops_mask_repeat_same). Qed.
+Proof. exact (@EinopsGlueMask.einops_mask_repeat_same). Qed.
 Print Assumptions C09_src_mask_replication_both_sites.
